@@ -127,6 +127,15 @@ class ExternalOptimizer(Optimizer):
                 with contextlib.suppress(subprocess.TimeoutExpired):
                     process.wait(_PROCESS_TIMEOUT)
 
+                # The optimizer process exits normally when it is finished, an
+                # abnormal termination must not be reported as a normal completion:
+                if process.returncode:
+                    msg = (
+                        "External optimizer terminated abnormally, "
+                        f"exit code: {process.returncode}"
+                    )
+                    raise RuntimeError(msg)
+
     @property
     def allow_nan(self) -> bool:
         """Whether NaN is allowed.
